@@ -59,7 +59,7 @@ PROPS["C17"] = {
     "module": "RCE.Props.C17chess",
     "theorems": ["RCE.Props.C17.eval_mirror", "RCE.Props.C17.eval_swap", "RCE.Props.C17.eval_range",
                  "RCE.Props.C17.saturation_breaks_antisymmetry", "RCE.Props.C17.reachable_material_bounded", "RCE.Props.C17.eval_swap_reachable", "RCE.Props.C17.eval_swap_in_every_game"],
-    "streams": {"quick": [WALK_Q], "thorough": [WALK_T]},
+    "streams": {"quick": [WALK_Q, FEN_Q], "thorough": [WALK_T, FEN_T]},
     "rule": WALK_RULE,
     "assumptions": ["eval_swap needs per-side material <= 32767 cp (true of every reachable position; counter-example without it is a theorem)"],
 }
